@@ -120,20 +120,15 @@ func (w *World) functionsFor(prop string) []string {
 }
 
 // sweepFunctions: functions verified for safety without any contract
-// (arbitrary inputs): the public entry points and option constructors.
+// (arbitrary inputs). They are listed in the contract files ("//@ sweep key");
+// sweeping every entry point of the package without contracts on the callees
+// does not scale (path explosion through the signature parsers).
 func sweepFunctions(w *World) []string {
 	var out []string
-	for key, fn := range w.funcs {
-		if fn.Synthetic != "" || fn.Parent() != nil {
-			continue
+	for _, key := range w.sweeps {
+		if w.funcs[key] != nil {
+			out = append(out, key)
 		}
-		if fn.Pkg == nil || fn.Pkg.Pkg.Path() != "go.uber.org/dig" {
-			continue
-		}
-		if strings.HasSuffix(key, ".init") || strings.Contains(key, "$") {
-			continue
-		}
-		out = append(out, key)
 	}
 	sort.Strings(out)
 	return out
